@@ -58,11 +58,11 @@ TOP_KEYS = {"tick", "sim_time_seconds", "results", "new_pipelines", "other_pipel
 def cases(tier, seed, shard, nshards):
     rng = rng_for(ID, seed, shard)
     for i in range(N[tier]):
-        tps = rng.choice([1, 2, 5, 10, 20, 100])
+        tps = rng.choice([1, 2, 5, 10, 20, 100, 7, 64, 1000])
         ticks = rng.choice([60, 120, 250])
-        pools = rng.choice([1, 2, 3])
-        cpus = rng.choice([2, 4, 10])
-        ram = rng.choice([4, 16, 64])
+        pools = rng.choice([1, 2, 3, 3, 8])
+        cpus = rng.choice([2, 4, 10, 1])
+        ram = rng.choice([4, 16, 64, 2.5])
         arrivals = {}
         for j in range(rng.choice([2, 5, 10, 16])):
             t = rng.randrange(0, int(ticks * 0.6))
